@@ -5,7 +5,7 @@ CONSTANTS
   Kind = "nameaddr"
   Atoms <- AtomsKnown
   Prefix <- PfxAS
-  MaxLen = 9
+  MaxLen = 10
   Cfgs <- CfgsNA1
   Junk = 34
   EmitOn = TRUE
